@@ -160,6 +160,127 @@ def scan_remap_callers(repo):
                         "the memory map may only be changed by the paging latch")
 
 
+def _core_sources(repo, crates=("rustzx-core/src",)):
+    import glob, sys
+    sys_path = os.path.join(VERIF, "vx")
+    if sys_path not in sys.path:
+        sys.path.insert(0, sys_path)
+    from rustlex import mask
+    for c in crates:
+        for path in sorted(glob.glob(os.path.join(repo, c, "**", "*.rs"), recursive=True)):
+            src = open(path).read()
+            yield os.path.relpath(path, repo), src, mask(src)
+
+
+def _enclosing_fn(msk, pos):
+    fns = [x for x in re.finditer(r"\bfn\s+(\w+)", msk[:pos])]
+    return fns[-1].group(1) if fns else "?"
+
+
+def scan_passed_frames(repo):
+    """C16 frame obligation: the host-side frame counter is outside the machine state - only
+    frames_count reads it, only new/reset_frame_counter/new_frame write it, and only
+    emulate_frames asks for it"""
+    ob = "scan::passed_frames touched only by {new, frames_count, reset_frame_counter} and the `+= 1` at the frame end; frames_count called only by emulate_frames"
+    ok_fns = {"new", "frames_count", "reset_frame_counter"}
+    bad, seen = [], 0
+    for rel, src, msk in _core_sources(repo):
+        for m in re.finditer(r"\bpassed_frames\b", msk):
+            seen += 1
+            # the field declaration itself
+            line = msk[msk.rfind("\n", 0, m.start()) + 1:msk.find("\n", m.end())]
+            if re.match(r"\s*(pub(\([a-z]+\))?\s+)?passed_frames\s*:\s*usize\s*,", line):
+                continue
+            fn = _enclosing_fn(msk, m.start())
+            # the per-frame increment: a self-update, nothing else may depend on the value
+            if rel.endswith("zx/controller.rs") and fn in ("wait_internal", "new_frame") and \
+                    re.match(r"\s*self\s*\.\s*passed_frames\s*\+=\s*1\s*;\s*$", line):
+                continue
+            if not (rel.endswith("zx/controller.rs") and fn in ok_fns):
+                bad.append("%s::%s" % (rel, fn))
+        for m in re.finditer(r"\bframes_count\s*\(", msk):
+            fn = _enclosing_fn(msk, m.start())
+            if msk[:m.start()].rstrip().endswith("fn"):
+                continue
+            if not (rel.endswith("emulator/mod.rs") and fn == "emulate_frames"):
+                bad.append("%s::%s (calls frames_count)" % (rel, fn))
+    if seen == 0:
+        return dict(status="undecided", obligation=ob, detail="passed_frames not found (lost anchor)")
+    if bad:
+        return dict(status="fail", obligation=ob, detail="the frame counter of the host's slicing leaks into: %s" % sorted(set(bad)))
+    return dict(status="ok", obligation=ob, detail="")
+
+
+NONDET_TOKENS = (r"\bInstant\b|\bSystemTime\b|std::time|core::time::Instant|\brand\b|\bgetrandom\b|std::thread|\bthread_local\b|"
+                 r"\bstatic\s+mut\b|\bHashMap\b|\bHashSet\b|\bRandomState\b|\bUnsafeCell\b|\bRefCell\b|\bCell\s*<|\bunsafe\b|"
+                 r"\bMaybeUninit\b|as\s+\*const|as\s+\*mut|\.as_ptr\s*\(|\bAtomic[A-Z]\w+|std::env|\bOnceCell\b")
+
+
+def scan_nondeterminism(repo):
+    """C16 determinism: the emulation crates contain no source of nondeterminism (clock, RNG,
+    threads, address-dependent code, interior-mutable statics, unsafe); the host stopwatch is read
+    only by emulate_frames (whose contract makes the machine state independent of it)"""
+    ob = "scan::no nondeterminism source in rustzx-core/rustzx-z80/aym sources; Stopwatch used only by emulate_frames"
+    bad, nfiles = [], 0
+    for rel, src, msk in _core_sources(repo, ("rustzx-core/src", "rustzx-z80/src", "aym/src")):
+        nfiles += 1
+        # test modules are not part of the emulator
+        body = msk
+        t = re.search(r"#\[cfg\(test\)\]", body)
+        if t:
+            body = body[:t.start()]
+        for m in re.finditer(NONDET_TOKENS, body):
+            bad.append("%s: `%s`" % (rel, m.group(0)))
+        for m in re.finditer(r"\bEmulationStopwatch\b|\.measure\s*\(", body):
+            fn = _enclosing_fn(body, m.start())
+            if rel.endswith("host/mod.rs"):
+                continue
+            if not (rel.endswith("emulator/mod.rs") and fn == "emulate_frames"):
+                bad.append("%s::%s reads the host stopwatch" % (rel, fn))
+    if nfiles < 20:
+        return dict(status="undecided", obligation=ob, detail="sources not found (lost anchor)")
+    if bad:
+        return dict(status="fail", obligation=ob, detail="nondeterminism source: %s" % sorted(set(bad))[:8])
+    return dict(status="ok", obligation=ob, detail="")
+
+
+MIXER_SINKS = (r"mixer\s*\.\s*(new_frame\s*\(\s*\)|process\s*\(|beeper\s*\.\s*change_state\s*\(|ay\s*\.\s*(read|write|select_reg|set_regs)\s*\(|"
+               r"pop\s*\(\s*\)|use_ay\s*=[^=]|volume\s*\()")
+
+
+def scan_sound_flows(repo):
+    """C16 (sound on/off, drained or not): nothing flows from the host-side sound switch or the
+    sample queue into the machine - `sound_enabled` is read only by have_sound (host-facing),
+    and outside zx/sound the mixer is only fed (process/new_frame/beeper/AY register file) or
+    drained by the host (pop)"""
+    ob = "scan::sound_enabled read only by have_sound; mixer used outside zx/sound only through {process,new_frame,beeper.change_state,ay.read/write/select_reg/set_regs,pop,use_ay=,volume}"
+    bad, seen = [], 0
+    for rel, src, msk in _core_sources(repo):
+        for m in re.finditer(r"\bsound_enabled\b", msk):
+            seen += 1
+            fn = _enclosing_fn(msk, m.start())
+            line = msk[msk.rfind("\n", 0, m.start()) + 1:msk.find("\n", m.end())]
+            if rel.endswith("settings.rs") or re.match(r"\s*(pub\s+)?sound_enabled\s*:\s*bool\s*,", line):
+                continue
+            if not (rel.endswith("emulator/mod.rs") and fn in ("new", "set_sound", "have_sound")):
+                bad.append("%s::%s uses sound_enabled" % (rel, fn))
+        for m in re.finditer(r"\bhave_sound\s*\(", msk):
+            if not msk[:m.start()].rstrip().endswith("fn"):
+                bad.append("%s::%s calls have_sound" % (rel, _enclosing_fn(msk, m.start())))
+        if "/zx/sound/" in "/" + rel:
+            continue
+        for m in re.finditer(r"\bmixer\s*\.", msk):
+            seen += 1
+            if not re.match(MIXER_SINKS, msk[m.start():m.start() + 80]):
+                bad.append("%s::%s: %s" % (rel, _enclosing_fn(msk, m.start()), msk[m.start():m.start() + 40].split("\n")[0]))
+    if seen == 0:
+        return dict(status="undecided", obligation=ob, detail="no sound_enabled / mixer use found (lost anchor)")
+    if bad:
+        return dict(status="fail", obligation=ob, detail="sound state flows into the machine: %s" % sorted(set(bad))[:8])
+    return dict(status="ok", obligation=ob, detail="")
+
+
+
 def scan_paging_writers(repo):
     allowed = {"rustzx-core/src/zx/controller.rs::write_7ffd", "rustzx-core/src/zx/controller.rs::restore_7ffd"}
     found = grep_writers(repo, "paging_enabled", allowed) | grep_writers(repo, "current_port_7ffd", allowed)
@@ -186,7 +307,6 @@ K_MACHINE = dict(name="K-core::machine", package="rustzx-core", features="full",
 SOURCE_COMMITS = []
 
 NOT_APPLICABLE = {
-    "C16": "relational 2-run / all-host-schedules property; no unary function contract within Verus/Kani reach expresses or decides it (DESIGN.md §5)",
 }
 # properties whose units are not built yet are listed as not claimed until their check exists
 for _p in ["C%02d" % i for i in range(1, 21)]:
@@ -445,6 +565,16 @@ PROPS = {
         note="Two genuine defects found by these obligations were repaired (stop idempotence, stale resume state after rewind/end of tape). Histories by induction over the per-command contracts (not a Verus lemma). Empty tape variant is trivial (read, not contracted).",
         verus=["tape"],
         explanation="deck commands as contracts over (playing, resume(), position)",
+    ),
+    "C16": dict(
+        level="proof",
+        claim="The relational statement is decided through the unary contract that implies it: Verus proves on the real Emulator::emulate_frames (with the real ZXController struct, take_events, take_last_emulation_error, reset_frame_counter, process_fast_load_event, EmulationEvents::take) that for EVERY emulation mode, time limit and sequence of stopwatch readings one call performs exactly k+1 applications of ONE machine-step function `substep` (CPU step; pending error; events; fast load before a breakpoint stop) to the machine state (CPU, controller without the host-side frame counter, fast-load switch) and nothing else, stopping early only for the reason it reports; lemma_run_compose then gives slicing independence (a steps then b steps = a+b steps) for frames-per-call, max speed, timeouts and breakpoint stop/resume. reset_frame_counter changes only the frame counter (whole-struct postcondition). LoadableAsset::read_exact delivers exactly the next bytes of the stream for every short-read pattern of the host asset; ZXMixer::pop only removes the head of the sample queue. Source scans discharge the syntactic frame obligations: no nondeterminism source in the emulation crates and the stopwatch is read only by emulate_frames; the frame counter is read only by frames_count/emulate_frames; sound_enabled is read only by have_sound and the mixer is only fed or drained outside zx/sound.",
+        note="Bit-identical repeat runs follow from every function being a function of its inputs (safe Rust + the nondeterminism scan) - assumed as Rust semantics, not proved. Z80::emulate and fast_load_tap enter as uninterpreted functions of the machine state (what they compute is C01-C03/C10). Not covered: gzip-wrapped assets (flate2), audio sample values with sound on/off (no audio is delivered when sound is off), host inputs applied mid-frame.",
+        verus=["ctl", "hostio", "mixer"],
+        scans=[scan_passed_frames, scan_nondeterminism, scan_sound_flows],
+        kani=[],
+        explanation="slicing independence = emulate_frames is an iterate of one step function (unary functional contract) + composition lemma",
+        technique="contract-based deductive verification: Verus contracts on the real emulate_frames/controller/host-io code + composition lemma; syntactic frame scans",
     ),
     "C17": dict(
         level="proof",
